@@ -190,8 +190,8 @@ static void gen_position(vh::Rng& r, double& lat, double& lon, std::string& cls)
 }
 static bool within(double a, double b, double half_unit, double extra) { return std::fabs(a - b) <= half_unit * (1 + 1e-9) + extra; }
 
-static void sec_geocoords(Ctx& c, uint64_t) {
-  vh::Rng& r = c.rng; double lat, lon; std::string pc; gen_position(r, lat, lon, pc);
+static void geocoords_body(Ctx& c, double lat, double lon, const std::string& pc) {
+  vh::Rng& r = c.rng;
   std::string what; GeoCoords g;
   Outcome o = guarded([&] { g.Reset(lat, lon); }, what);
   if (o != RETURNED) { c.viol("exception:C10/GeoCoords(lat,lon)", "geocoords/" + pc, J().f("lat", lat).f("lon", lon).str("what", what)); return; }
@@ -268,14 +268,40 @@ static void sec_geocoords(Ctx& c, uint64_t) {
       o = guarded([&] { g2.Reset(s, true, false); }, what);
       if (o != RETURNED) { c.viol("law:C10/geocoords/utmups-representation-rejected", cls, base().i("prec", prec).str("repr", s).str("what", what)); continue; }
       double hu = 0.5 * std::pow(10.0, -p);
-      // after Reset the hemisphere is the true one again (FixHemisphere), so compare with the original
-      bool ok = g2.Zone() == z0 && within(g2.Easting(), e0, hu, 2 * rd::ulp(e0));
-      bool hemi_ok = g2.Northp() == g.Northp() && within(g2.Northing(), n0, hu, 2 * rd::ulp(1e7));
-      // a point within half a unit of the equator may legitimately come back on the other side of it
-      bool equator_flip = !ups && g2.Northp() != g.Northp() && within(g2.Northing() + (g2.Northp() ? 1e7 : -1e7), n0, hu, 2 * rd::ulp(1e7)) && std::fabs(g2.Latitude()) <= hu * 1e-5 * 1.1 + 1e-12;
-      if (!(ok && (hemi_ok || equator_flip)))
-        c.viol("law:C10/geocoords/utmups-representation-roundtrip", cls, base().i("prec", prec).str("repr", s).i("zone2", g2.Zone()).b("northp2", g2.Northp()).f("easting2", g2.Easting()).f("northing2", g2.Northing()).f("want_e", e0).f("want_n", n0));
-      if (equator_flip && !hemi_ok) c.event("geocoords: rounded northing crossed the equator (tolerated)");
+      // What the *text* says (independent reading): zone, hemisphere token, easting, northing.  The parser must keep the
+      // printed hemisphere unless the northing lies strictly on the other side of the equator (y = northing - false
+      // northing): y > 0 => north, y < 0 => south, y == 0 => the printed hemisphere is preserved ("either hemisphere
+      // is allowed on the equator" -- this is what the unchanged library does, incl. for lat = -0.0 and "-0").
+      {
+        std::vector<std::string> tt = rd::split_tokens(s); rd::ZoneResult ZZ; rd::NumResult EE, NN;
+        if (tt.size() != 3 || (ZZ = rd::zone_ref(tt[0])).st != rd::ACCEPT || (EE = rd::val_double_ref(tt[1])).st != rd::ACCEPT || (NN = rd::val_double_ref(tt[2])).st != rd::ACCEPT
+            || EE.sp != rd::FINITE || NN.sp != rd::FINITE) { c.viol("oracle:C10/geocoords/utmups-representation-format", cls, base().i("prec", prec).str("repr", s)); continue; }
+        bool hp = ZZ.northp; double y = ups ? NN.v : NN.v - (hp ? 0 : 1e7);
+        double y0 = ups ? n0 : g.Northing() - (g.Northp() ? 0 : 1e7);     // true northing from the equator (same in every UTM hemisphere convention)
+        if (var == 3) y0 = n0 - (g.Northp() ? 0 : 1e7);
+        bool want_np = ups ? hp : (y > 0 ? true : y < 0 ? false : hp);
+        double want_n = want_np == hp ? NN.v : NN.v + (hp ? 1e7 : -1e7);
+        auto d2 = [&]() { return base().i("prec", prec).b("abbrev", abbrev).str("repr", s).i("zone2", g2.Zone()).b("northp2", g2.Northp()).f("easting2", g2.Easting()).f("northing2", g2.Northing()).b("want_northp", want_np).f("want_northing", want_n); };
+        // (i) the text is within half a unit of the original
+        if (ZZ.zone != z0 || !within(EE.v, e0, hu, 2 * rd::ulp(e0)) || !within(y, y0, hu, 2 * rd::ulp(1e7)))
+          c.viol("law:C10/geocoords/utmups-representation-roundtrip", cls, d2().f("want_e", e0).f("want_n", n0));
+        if ((var == 0 || var == 3) && hp != g.Northp()) c.viol("oracle:C10/geocoords/utmups-representation-hemisphere-token", cls, d2());
+        if ((var == 1 || var == 2) && hp != (var == 1)) c.viol("oracle:C10/geocoords/utmups-representation-hemisphere-token", cls, d2());
+        // (ii) the parser returns what the text says, with the hemisphere rule above
+        if (g2.Zone() != ZZ.zone || !vh::same_bits(g2.Easting(), EE.v)) c.viol("law:C10/geocoords/utmups-parse-zone-or-easting", cls, d2());
+        if (g2.Northp() != want_np || !(want_np == hp ? vh::same_bits(g2.Northing(), want_n) || (g2.Northing() == 0 && want_n == 0) : std::fabs(g2.Northing() - want_n) <= rd::ulp(1e7)))
+          c.viol("law:C10/geocoords/utmups-parse-hemisphere-or-northing", cls, d2());
+        // (iii) relative to the original position the hemisphere may differ only for a text exactly on the equator
+        if (want_np != g.Northp()) {
+          if (!ups && y == 0) c.event("geocoords: text exactly on the equator keeps the printed (overridden) hemisphere (tolerated)");
+          else c.viol("law:C10/geocoords/utmups-representation-roundtrip", cls, d2().str("why", "hemisphere of the original position lost"));
+        }
+        // (iv) print(parse(text)) == text whenever the printed hemisphere is the one kept
+        if (want_np == hp && g2.Northp() == hp) {
+          std::string s2; o = guarded([&] { s2 = g2.UTMUPSRepresentation(prec, abbrev); }, what);
+          if (o != RETURNED || s2 != s) c.viol("law:C10/geocoords/utmups-print-parse-fixed-point", cls, d2().str("reprinted", s2).str("what", what));
+        }
+      }
       // format: zone token + two plain numbers; negative precision pads with zeros
       std::vector<std::string> t = rd::split_tokens(s); rd::ZoneResult Z;
       if (t.size() != 3 || (Z = rd::zone_ref(t[0])).st != rd::ACCEPT || Z.zone != z0 || (abbrev ? t[0].size() > 3 : t[0].size() < 5))
@@ -321,6 +347,56 @@ static void sec_geocoords(Ctx& c, uint64_t) {
         if (!mgrs_lexical(s) || (int)nd != 2 * p) c.viol("oracle:C10/geocoords/mgrs-representation-format", cls, base().i("prec", prec).str("repr", s).i("want_digits", 2 * p)); }
       if (c.want_sample(cls)) c.sample(cls, base().i("prec", prec).str("repr", s));
     }
+  }
+}
+
+static void sec_geocoords(Ctx& c, uint64_t) {
+  double lat, lon; std::string pc; gen_position(c.rng, lat, lon, pc);
+  geocoords_body(c, lat, lon, pc);
+}
+// directed: positions on / next to the equator (+0, -0, +-tiny that round onto it at every printed precision)
+static const double kEqLat[] = {0.0, 5e-324, 1e-300, 1e-20, 1e-15, 1e-12, 4e-9, 4e-8, 4e-7, 4e-6, 4.4e-6, 4.6e-6, 4e-5, 4e-4, 4e-3, 0.04, 0.4};
+static const double kEqLon[] = {3.0, -177.0, 0.0, 179.5, 45.3, -6.0, 8.99999999};
+static void sec_geocoords_equator(Ctx& c, uint64_t idx) {
+  size_t nl = sizeof kEqLat / sizeof kEqLat[0], nn = sizeof kEqLon / sizeof kEqLon[0];
+  double lat = kEqLat[(idx / 2) % nl]; if (idx & 1) lat = -lat;
+  double lon = kEqLon[(idx / (2 * nl)) % nn];
+  geocoords_body(c, lat, lon, std::signbit(lat) ? "equator-directed/south-side" : "equator-directed/north-side");
+}
+// directed: three-token UTM strings exactly on the equator in both hemisphere conventions, every zone,
+// zone first / last, abbreviated / long / upper-case hemisphere, several spellings of the numbers
+static void sec_utm_equator(Ctx& c, uint64_t idx) {
+  CtxSink k(c); int zone = (int)idx + 1;
+  static const char* hs[] = {"s", "S", "south", "South", "SOUTH"}; static const char* hn[] = {"n", "N", "north", "North", "NORTH"};
+  static const char* ns[] = {"10000000", "10000000.0", "10000000.000000000", "1e7", "10000000.", "+10000000", "010000000"};
+  static const char* nn[] = {"0", "0.0", "-0", "-0.000", "0.000000000", "0e0", "+0"};
+  static const char* es[] = {"500000", "500000.000", "166021.4", "833978.6", "5e5"};
+  for (int south = 0; south < 2; ++south) for (int hi = 0; hi < 5; ++hi) for (int ni = 0; ni < 7; ++ni) for (int ei = 0; ei < 5; ++ei) for (int zl = 0; zl < 2; ++zl) for (int pad = 0; pad < 2; ++pad) {
+    if (pad && zone >= 10) continue;
+    char zb[8]; std::snprintf(zb, sizeof zb, pad ? "%02d" : "%d", zone);
+    std::string zt = std::string(zb) + (south ? hs[hi] : hn[hi]), nt = south ? ns[ni] : nn[ni], et = es[ei];
+    std::string line = zl ? et + " " + nt + " " + zt : zt + " " + et + " " + nt;
+    std::string cls = std::string("utm-equator/") + (south ? "south-10000000" : "north-0") + (zl ? "/zone-last" : "/zone-first") + (hi >= 2 ? "/long-hemisphere" : "/abbreviated");
+    c.count(cls, vh::hmixs(81, line), true);
+    GeoCoords g; std::string what; Outcome o = guarded([&] { g.Reset(line); }, what);
+    auto det = [&]() { return J().str("line", line).str("what", what).b("northp", g.Northp()).f("northing", g.Northing()).f("lat", g.Latitude()).i("zone", g.Zone()); };
+    if (o != RETURNED) { c.viol("oracle:C10/utm-equator/rejected", cls, det()); continue; }
+    double wantn = south ? 1e7 : 0.0;
+    if (g.Zone() != zone || g.Northp() != !south || g.Northing() != wantn || g.Latitude() != 0)
+      { c.viol("oracle:C10/utm-equator/hemisphere-or-northing-not-preserved", cls, det()); continue; }
+    // print / parse fixed point in every precision and hemisphere spelling
+    for (int prec = -5; prec <= 9; ++prec) for (int ab = 0; ab < 2; ++ab) {
+      std::string r1, r2; GeoCoords g2;
+      o = guarded([&] { r1 = g.UTMUPSRepresentation(prec, ab != 0); g2.Reset(r1); r2 = g2.UTMUPSRepresentation(prec, ab != 0); }, what);
+      std::vector<std::string> t = rd::split_tokens(r1); rd::ZoneResult Z; if (t.size() == 3) Z = rd::zone_ref(t[0]);
+      bool neg0 = !south && nt[0] == '-';
+      std::string wantnt = std::string(neg0 ? "-" : "") + (south ? (prec < 0 ? std::to_string((long long)std::llround(1e7 / std::pow(10.0, -prec))) + std::string((size_t)(-prec), '0') : std::string("10000000")) : std::string("0"));
+      if (prec > 0) wantnt += "." + std::string((size_t)prec, '0');
+      if (o != RETURNED || r1 != r2 || t.size() != 3 || Z.st != rd::ACCEPT || Z.northp != !south || Z.zone != zone || t[2] != wantnt || g2.Northp() != !south || g2.Northing() != wantn)
+        c.viol("law:C10/utm-equator/print-parse-fixed-point", cls, det().i("prec", prec).b("abbrev", ab).str("printed", r1).str("reprinted", r2).str("want_northing_text", wantnt));
+    }
+    check_geocoords_reset(line, true, false, k, cls);
+    if (c.want_sample(cls)) c.sample(cls, det().str("printed", g.UTMUPSRepresentation(0)));
   }
 }
 
@@ -666,6 +742,8 @@ int main(int argc, char** argv) {
   S.push_back({"encode_directed", catalogue().size(), catalogue().size(), false, sec_encode_directed, 60});
   S.push_back({"directed_strings", 120, 120, false, sec_directed_strings, 20});
   S.push_back({"geocoords_undefined", 4, 4, false, sec_geocoords_nan, 20});
+  S.push_back({"geocoords_equator", 2 * 17 * 7, 2 * 17 * 7, false, sec_geocoords_equator, 60});
+  S.push_back({"utm_equator", 60, 60, false, sec_utm_equator, 60});
   S.push_back({"encode_random", 60000, 2000000, true, sec_encode_random, 20});
   S.push_back({"strval", 150000, 4000000, true, sec_strval, 20});
   S.push_back({"split", 50000, 1000000, true, sec_split, 20});
